@@ -477,6 +477,31 @@ func cmdFaults(args []string) {
 			}
 		}
 	}
+	// allocation grows linearly with nesting: a chain of messages through a cycle of the schema
+	// (one or two fields long), every level carrying an unknown record in front of the nested
+	// payload; twice the depth may cost about twice the memory, not four times
+	if path := cyclePath(md); path != nil {
+		alloc := func(depth int) uint64 {
+			x := nestedWithUnknown(md, path, depth)
+			best := ^uint64(0)
+			for rep := 0; rep < 3; rep++ {
+				m := mt.New().Interface()
+				var ms0, ms1 runtime.MemStats
+				runtime.ReadMemStats(&ms0)
+				bounded(func() { _ = proto.Unmarshal(x, m) })
+				runtime.ReadMemStats(&ms1)
+				if d := ms1.TotalAlloc - ms0.TotalAlloc; d < best {
+					best = d
+				}
+			}
+			return best
+		}
+		a1, a2 := alloc(250), alloc(500)
+		cases += 2
+		if a2 > 3*a1+(1<<16) {
+			emit(parseVerdict{Kind: "alloc", Type: *typ, In: []int{}, Note: fmt.Sprintf("superlinear: %d bytes allocated for 250 nesting levels with unknown fields, %d for 500", a1, a2), Fault: "nested-unknown"})
+		}
+	}
 	// length bombs: a length-delimited field claiming 2^k bytes with almost nothing behind it
 	for i := 0; i < md.Fields().Len(); i++ {
 		fd := md.Fields().Get(i)
@@ -603,4 +628,60 @@ func cmdDeep(args []string) {
 	}
 	ob, _ := json.Marshal(res)
 	fmt.Println(string(ob))
+}
+
+// cyclePath finds singular message fields leading from md back to md in one or two steps.
+func cyclePath(md protoreflect.MessageDescriptor) []protoreflect.FieldDescriptor {
+	single := func(m protoreflect.MessageDescriptor) []protoreflect.FieldDescriptor {
+		var out []protoreflect.FieldDescriptor
+		for i := 0; i < m.Fields().Len(); i++ {
+			fd := m.Fields().Get(i)
+			if fd.Message() != nil && !fd.IsMap() && !fd.IsList() && !strings.HasPrefix(string(fd.Message().FullName()), "google.protobuf.") {
+				out = append(out, fd)
+			}
+		}
+		return out
+	}
+	for _, f1 := range single(md) {
+		if f1.Message().FullName() == md.FullName() {
+			return []protoreflect.FieldDescriptor{f1}
+		}
+	}
+	for _, f1 := range single(md) {
+		for _, f2 := range single(f1.Message()) {
+			if f2.Message().FullName() == md.FullName() {
+				return []protoreflect.FieldDescriptor{f1, f2}
+			}
+		}
+	}
+	return nil
+}
+
+// nestedWithUnknown encodes `depth` levels of messages along the cycle, each level starting
+// with an unknown varint record.
+func nestedWithUnknown(md protoreflect.MessageDescriptor, path []protoreflect.FieldDescriptor, depth int) []byte {
+	// the message type at level k (0 = outermost) and the field leading to level k+1
+	typeAt := func(k int) protoreflect.MessageDescriptor {
+		if k%len(path) == 0 {
+			return md
+		}
+		return path[0].Message()
+	}
+	var payload []byte
+	for k := depth - 1; k >= 0; k-- {
+		t := typeAt(k)
+		num := protowire.Number(1)
+		for t.Fields().ByNumber(num) != nil || t.ReservedRanges().Has(num) {
+			num++
+		}
+		var lvl []byte
+		lvl = protowire.AppendTag(lvl, num, protowire.VarintType)
+		lvl = protowire.AppendVarint(lvl, 7)
+		if k < depth-1 {
+			lvl = protowire.AppendTag(lvl, path[k%len(path)].Number(), protowire.BytesType)
+			lvl = protowire.AppendBytes(lvl, payload)
+		}
+		payload = lvl
+	}
+	return payload
 }
